@@ -86,6 +86,10 @@ int main(){
                     mesh_reader rd_(out_dir + "/cell_data/result_" + std::to_string(n) + ".vtk", false);
                     std::vector<mesh> ms = rd_.read(); std::vector<short> tys = rd_.get_cell_types();
                     std::cout << " " << ms.size(); for (short x : tys) std::cout << " " << x;
+                    // the cell_id data array of the file (which cells the file says it describes)
+                    { std::ifstream f(out_dir + "/cell_data/result_" + std::to_string(n) + ".vtk"); std::string w; bool found = false;
+                      while (f >> w) if (w == "cell_id"){ long comp, cnt; std::string ty; if (f >> comp >> cnt >> ty){ std::cout << " I"; for (long k = 0; k < cnt * comp; k++){ std::string v; if (!(f >> v)) break; std::cout << " " << v; } found = true; } break; }
+                      if (!found) std::cout << " I-"; }
                 } catch (const std::exception& e){ std::cout << " UNREADABLE"; }
                 std::cout << " |";
             }
